@@ -59,6 +59,9 @@ func (f *Fam) genInit(r *rand.Rand) string {
 			continue
 		}
 		fmt.Fprintf(&sb, " acc %s %d", hx(Keys[ki].Addr), bal)
+		if r.Intn(3) == 0 {
+			fmt.Fprintf(&sb, " acc2 %s %d", hx(Keys[ki].Addr), pick(r, 1, 5, 1000, 1000000))
+		}
 		if i < nv {
 			tok := ms + pick(r, 1, 1, 2, 999999, 1000000, 5000000, 1+int64(r.Intn(20000000)))
 			j := 0 // ValidateGenesis refuses staked+jailed validators
@@ -218,7 +221,9 @@ func (f *Fam) genTx(r *rand.Rand, s *Snapshot) string {
 		return "tx " + m + " " + old
 	}
 	line := f.genTx1(r, s)
-	if w := strings.SplitN(line, " ", 3); len(w) == 3 && len(f.gen.past) < 200 {
+	// (transactions paying part of their fee in the second denomination are not replayed: whether that part is still
+	// affordable later is something the model does not track)
+	if w := strings.SplitN(line, " ", 3); len(w) == 3 && len(f.gen.past) < 200 && !strings.Contains(line, "fee2=") {
 		f.gen.past = append(f.gen.past, w[2])
 	}
 	return line
@@ -338,8 +343,17 @@ func (f *Fam) genTx1(r *rand.Rand, s *Snapshot) string {
 		fields = fmt.Sprintf("from=%s to=%s amt=%s", addr, to, amt)
 	case x < 85:
 		kind = "changeparam"
-		keys := []string{"pos/MaxValidators", "pos/SignedBlocksWindow", "pos/StakeMinimum", "pos/UnstakingTime", "auth/MaxMemoCharacters", "gov/daoOwner", "pos/Nope", "nosuch/Key", "pos/MinSignedPerWindow"}
+		keys := []string{"pos/MaxValidators", "pos/SignedBlocksWindow", "pos/StakeMinimum", "pos/UnstakingTime", "auth/MaxMemoCharacters", "gov/daoOwner", "pos/Nope", "nosuch/Key", "pos/MinSignedPerWindow", "gov/acl", "gov/acl"}
 		key := keys[r.Intn(len(keys))]
+		// the sender is mostly the address the access-control list names for this key (ownership is handed over per key)
+		var curACL govTypes.ACL
+		govTypes.ModuleCdc.UnmarshalJSON([]byte(s.Params["gov/acl"]), &curACL)
+		if o := curACL.GetOwner(key); o != nil && r.Intn(4) != 0 {
+			if i, ok := keyByAddr[hx(o)]; ok {
+				ki, addr, signer = i, hx(o), i
+			}
+		}
+		aclFields := ""
 		val := ""
 		switch key {
 		case "pos/MaxValidators":
@@ -354,6 +368,29 @@ func (f *Fam) genTx1(r *rand.Rand, s *Snapshot) string {
 			val = fmt.Sprintf(`"%d"`, pick(r, 10, 256))
 		case "gov/daoOwner":
 			val = fmt.Sprintf(`"%s"`, other)
+		case "gov/acl":
+			// hand one key over to another owner: the full new list goes to the implementation as JSON, the model is
+			// told which entry differs
+			names := AllParamNames()
+			k := names[r.Intn(len(names))]
+			newOwner := Keys[r.Intn(NKeys)].Addr
+			na := govTypes.ACL{}
+			drop := r.Intn(5) == 0 // a new list that simply omits the key: nobody owns it any more
+			for _, pair := range curACL {
+				if drop && pair.Key == k {
+					continue
+				}
+				na.SetOwner(pair.Key, pair.Addr)
+			}
+			if !drop {
+				na.SetOwner(k, newOwner)
+			}
+			bz, _ := govTypes.ModuleCdc.MarshalJSON(na)
+			val = string(bz)
+			aclFields = fmt.Sprintf(" aclk=%s aclo=%s", k, hx(newOwner))
+			if drop {
+				aclFields = fmt.Sprintf(" aclk=%s aclo=", k)
+			}
 		case "pos/MinSignedPerWindow":
 			val = `"0.500000000000000000"`
 		default:
@@ -361,6 +398,7 @@ func (f *Fam) genTx1(r *rand.Rand, s *Snapshot) string {
 		}
 		if r.Intn(6) == 0 {
 			val = []string{`{`, `"abc"`, `[1]`, ``}[r.Intn(4)]
+			aclFields = ""
 		}
 		// only MaxValidators / daoOwner changes are tracked by the model; others are kept out of
 		// the modelled profile unless the generator is in the gov profile
@@ -368,6 +406,7 @@ func (f *Fam) genTx1(r *rand.Rand, s *Snapshot) string {
 		if val == "" {
 			fields = fmt.Sprintf("from=%s key=%s val=", addr, key)
 		}
+		fields += aclFields
 	case x < 93:
 		kind = "daotransfer"
 		fields = fmt.Sprintf("from=%s to=%s amt=%d", addr, other, pick(r, 1, 100, 1000, 50000000, 50000001, 0))
@@ -404,7 +443,23 @@ func (f *Fam) genTx1(r *rand.Rand, s *Snapshot) string {
 	if r.Intn(8) == 0 {
 		memo = int(pick(r, 1, 10, 11, 256, 257))
 	}
-	return fmt.Sprintf("tx %s k=%s signer=%d pk=%d fee=%d memo=%d ent=%d mut=%s %s", mode, kind, signer, pk, fee, memo, r.Int63n(1<<40), mut, fields)
+	fee2 := ""
+	if v := balOf(s, addr, Denom2); v.IsPositive() && r.Intn(3) == 0 {
+		// part of the fee in the other denomination - always affordable, so that it never decides acceptance; what it
+		// must not do is count towards the required fee (C03), vanish (C02), or get lost on the way to the proposer (C10)
+		amt := int64(1)
+		if v.GT(sdk.NewInt(3)) && r.Intn(2) == 0 {
+			amt = 3
+		}
+		fee2 = fmt.Sprintf(" fee2=%d", amt)
+		if r.Intn(3) == 0 {
+			fee = pick(r, 0, req-1, 1) // ... offered INSTEAD of enough of the staking denomination
+			if fee < 0 {
+				fee = 0
+			}
+		}
+	}
+	return fmt.Sprintf("tx %s k=%s signer=%d pk=%d fee=%d memo=%d ent=%d mut=%s %s%s", mode, kind, signer, pk, fee, memo, r.Int63n(1<<40), mut, fields, fee2)
 }
 
 func (f *Fam) Gen(r *rand.Rand, i int) string {
